@@ -267,6 +267,8 @@ pub fn spec(check: &str, tier: &str) -> Option<CheckSpec> {
         "C08" => {
             let (mut progs, mut level) = wait_programs(tier);
             progs.extend(fam::race_s_wait(tier));
+            progs.extend(fam::load_then_wait_family());
+            level.push_str("; LOAD-then-wait: a relaxed load with several candidates directly in front of a Notify::wait");
             level.push_str("; + two cell accesses inserted at every pair of positions into wait/notify idioms incl. two notifiers (notifier's writes happen-before the continuation)");
             Some(CheckSpec {
                 id: "C08",
@@ -508,7 +510,8 @@ pub fn spec(check: &str, tier: &str) -> Option<CheckSpec> {
             // only loops that terminate in every execution (C14 is about programs whose threads terminate)
             progs.extend(fam::spin_programs(tier).into_iter().filter(|p| !p.text().contains("==77") && !p.name.starts_with("S35")));
             progs.extend(fam::spin_lock_family(tier));
-            level.push_str("; SPIN and SPIN+LOCK (yield loops, also next to a mutex)");
+            progs.extend(fam::load_then_wait_family());
+            level.push_str("; SPIN and SPIN+LOCK (yield loops, also next to a mutex); LOAD-then-wait (a Load decision directly in front of a Spurious one)");
             // exploration controls: a stop_exploring()/explore() region or a skip_branch() around
             // relaxed loads with several candidates, spurious returns and scheduling decisions
             {
